@@ -294,6 +294,7 @@ func init() {
 		}
 		arithmeticFoundations(c)
 		groupFoundations(c, true)
+		latticeRules(c) // the verification equation is evaluated through the short-vector reduction
 	}
 }
 
